@@ -26,6 +26,16 @@ R["T17"] = ("if (idx == 0) chains -> switch (idx)", [
     (r"^(\s+)if \(idx == 0\)\n\s+\{\n(\s+[^\n]+;)\n\s+\}\n\s+else if \(idx == n\)\n\s+\{\n(\s+[^\n]+;)\n\s+\}\n\s+else\n\s+\{\n(\s+[^\n]+;)\n\s+\}\n",
      r"\1switch (idx)\n\1{\n\1case 0:\n\2\n\1    break;\n\1default:\n\1    if (idx == n)\n\1    {\n\3\n\1    }\n\1    else\n\1    {\n\4\n\1    }\n\1}\n", re.M),
     (r"^(\s+)if \(idx == 0\)\n\s+\{\n(\s+return [^\n]+;)\n\s+\}\n", r"\1switch (idx)\n\1{\n\1case 0:\n\2\n\1default:\n\1    break;\n\1}\n", re.M)], HDRS)
+# T18..T21: ordinary Eigen / C++ respellings
+R["T18"] = ("x.resize(a); x.setZero(); -> x.setZero(a);", [(r"^(\s+)(\w+)\.resize\(([^;\n]+)\);\n\s+\2\.setZero\(\);\n", r"\1\2.setZero(\3);\n", re.M)], HDRS)
+R["T19"] = ("i * k + c -> k * i + c in index positions", [(r"(\(|\[|, )([a-z]\w*) \* (\d+)( \+ \d+)?(\)|\]|,)", r"\1\3 * \2\4\5", 0)], HDRS)
+R["T20"] = ("const int x = <member or cast> -> const auto x", [(r"^(\s+)const int (\w+) = (static_cast<int>\([^;\n]*\)|\w+_);$", r"\1const auto \2 = \3;", re.M)], HDRS)
+R["T21"] = ("explicit this-> on the segment-count member", [(r"(?<![\w.>:])num_segments_\b(?!;| =|\{|\()", r"this->num_segments_", 0)], HDRS)
+R["T24"] = ("x.row(e) -> x.template block<1, DIM>(e, 0) where x has DIM columns", [(r"(?<!ws_gd_internal_)(?<!gdC)(?<!coeffs)\.row\(([^()]*(?:\([^()]*\)[^()]*)*)\)", r".template block<1, DIM>(\1, 0)", 0)], ("SplineTrajectory.hpp",))
+R["T29"] = ("++i -> i += 1 in loop headers", [(r"; \+\+(\w+)\)", r"; \1 += 1)", 0)], HDRS)
+R["T30"] = ("i < n -> i <= (n) - 1 in int loops", [(r"(for \(int (\w+) = [^;]+; )\2 < ([^;]+);", r"\1\2 <= (\3) - 1;", 0)], HDRS)
+R["T35"] = ("k.0 * x -> k * x", [(r"(?<![\w.])(\d+)\.0 \* ", r"\1 * ", 0)], HDRS)
+R["T39"] = ("const auto &x = member[i] -> const auto x = member[i]", [(r"const auto &(\w+) = (\w+_\[[^\]]+\]);", r"const auto \1 = \2;", 0)], HDRS)
 
 CHECKS = [l.strip() for l in open(os.path.join(VERIF, "tools", "ready.txt")) if l.strip() and not l.startswith("#")]
 bad = 0
